@@ -47,6 +47,7 @@ type FuncV struct {
 	fn   *ssa.Function
 	free []Value
 	bi   *ssa.Builtin
+	intr func(args []Value) Value // engine-implemented method (reflect-lite)
 }
 type MapEntry struct {
 	k, v Value
